@@ -458,8 +458,8 @@ LIB_SPECS = {
                         "truncated_prefixes": 5000, "renames_onto_cache_file": 100, "policy_entries_compared": 2000, "topology_hints_compared": 1000},
                 rule="per shard: N generated caches (pods with/without pod-resources, containers with partial/absent Linux resources, tags, hints, affinities, resource updates, policy entries of 11 types) saved, reloaded (also second generation) and compared through a fingerprint over every public getter; child histories of K saving operations run under strace with SIGKILL injected at the n-th write/renameat/openat/close touching the cache file or its temp file for every n until the child survives (quick 1 history x K=10, thorough 8 x K=8), the state directory loaded after every kill and compared with the pre/post hash of the unfinished operation; ENOSPC/EIO/EDQUOT/EACCES injected into the same calls; every prefix (<4 KiB, else ~200 sampled) of the next snapshot and garbage planted as the temp file; an uninjected run traced for in-place writes (rename-only); refusal matrix {cache file, state dir, containers dir} x {symlink, wrong type, fifo, g+w, o+w, both} plus 7 valid set-ups; distinct by (clause, kind, outcome class)"),
     "C06": dict(shards=16, n=dict(quick=6000, thorough=60000),
-                floors={"histories_nontrivial": 20000, "failed_ops": 200000, "offers_taken": 100000, "offers_committed_fresh": 20000, "stale_commits_attempted": 30000, "twin_compared": 30000, "releases": 100000, "reallocs_changed": 20000},
-                rule="N allocator histories per shard: a generated node set (2-8 nodes, DRAM/PMEM/HBM profiles, memory-less/movable/CPU-less nodes, 7 distance shapes, 37% with custom ExpandZone/HandleOvercommit) driven through 36-56 generated Allocate/GetOffer/Commit/Realloc/Release operations (sizes up to > capacity, unknown nodes, unavailable types, all priorities, every public request constructor) plus a final sweep committing every pooled offer; a public-observer snapshot (requests, AssignedZone of every id ever used, ZoneUsage of all 2^n masks) before and after every call; a lock-step twin allocator for offer-vs-direct-allocate; distinct = histories with >=1 failed op and >=1 offer"),
+                floors={"histories_nontrivial": 20000, "failed_ops": 200000, "offers_taken": 100000, "offers_committed_fresh": 20000, "stale_commits_attempted": 30000, "twin_compared": 30000, "releases": 100000, "reallocs_changed": 20000, "resets_with_allocations": 10000},
+                rule="N allocator histories per shard: a generated node set (2-8 nodes, DRAM/PMEM/HBM profiles, memory-less/movable/CPU-less nodes, 7 distance shapes, 37% with custom ExpandZone/HandleOvercommit) driven through 36-56 generated Allocate/GetOffer/Commit/Realloc/Release operations (and Reset() with offers outstanding, 4% of the steps: pristine state afterwards, offers taken before a releasing Reset are stale) (sizes up to > capacity, unknown nodes, unavailable types, all priorities, every public request constructor) plus a final sweep committing every pooled offer; a public-observer snapshot (requests, AssignedZone of every id ever used, ZoneUsage of all 2^n masks) before and after every call; a lock-step twin allocator for offer-vs-direct-allocate; distinct = histories with >=1 failed op and >=1 offer"),
     "C07": dict(shards=16, n=dict(quick=6000, thorough=60000),
                 floors={"histories_nontrivial": 20000, "ops_that_moved_others": 20000, "ops_allocate_ok": 200000, "ops_commit_ok": 30000, "reallocs_changed": 20000},
                 rule="same workload as C06; after every successful Allocate/Realloc/Commit: Hall fit over all 2^n node subsets, strict types, normal memory in every new zone, superset-only moves, reservations never moved, Realloc never removes nodes, returned updates = exactly the changed assignments; distinct = operations that moved other allocations"),
@@ -467,14 +467,14 @@ LIB_SPECS = {
                 floors={"machines": 40, "calls_alloc": 50000, "calls_release": 20000, "hybrid_machines": 3, "error_expected_and_got": 1000},
                 rule="N synthetic machines per shard (<=64 CPUs, hybrid/L2-cluster/offline/cpufreq variety), <=3000 checked AllocateCpus/ReleaseCpus calls each over biased subsets S of the online CPUs, counts 0..|S|+1, 5 priorities x 17 flag masks; thorough: machines with <=10 online CPUs are enumerated completely; non-trivial = call with 0<n<|S|, distinct by (machine shape, |S|, n, priority, flags)"),
     "C16": dict(shards=16, n=dict(quick=150, thorough=1500), tmpfs=True,
-                floors={"machines": 500, "setups_accepted": 1000, "pools_checked": 4000, "machines_pmem": 50, "machines_hbm": 30, "machines_memless": 30, "machines_offline": 30, "machines_isolated": 50, "machines_hybrid": 30, "machines_multi_die": 50, "special_nodes_attached": 500, "machines_legacy_attribute_names": 100, "setups_via_reconfigure": 500},
+                floors={"machines": 500, "setups_accepted": 1000, "pools_checked": 4000, "machines_pmem": 50, "machines_hbm": 30, "machines_memless": 30, "machines_offline": 30, "machines_isolated": 50, "machines_hybrid": 30, "machines_multi_die": 50, "special_nodes_attached": 500, "machines_legacy_attribute_names": 100, "setups_via_reconfigure": 500, "machines_with_movable_only_cpu_node": 60},
                 rule="catalogue + N random machines per shard written as sysfs trees; every accessor of the discovered sysfs.System compared with the generating model; 3 (quick) / 5 (thorough) topology-aware configurations per machine set up through the real backend, pool tree compared with the shape computed from model + configuration; distinct = machine shape x config class for machines with >=2 pools"),
     "C19": dict(shards=16, n=dict(quick=8000, thorough=300000),
                 floors={"reference_compared": 50000, "joint_keys": 20000, "weights_compared": 2000, "balloon_placements": 1500, "balloon_order_decided": 500},
                 rule="N expression cases per shard on real cache pods/containers (duality, doc-derived reference evaluator, joint keys, validated-never-panics), N/20 affinity-weight cases, N/200 balloon-type selection cases through the real balloons policy; distinct by case hash"),
     "C20": dict(shards=16, n=dict(quick=8000, thorough=400000),
-                floors={"cpu_values_checked": 256001, "capacities_checked": 100000, "adj_roundtrips": 10000000, "cache_containers_checked": 1000},
-                rule="CPU part exhaustive in every shard (all m in 0..256000, all shares 2..262144, all quotas); memory part: fixed list of 4511 capacities + N PRNG-drawn capacities per shard in [1MiB,64TiB], table build under recover and all Burstable adjustments round-tripped; containers of the three QoS classes through the cache"),
+                floors={"cpu_values_checked": 256001, "capacities_checked": 100000, "adj_roundtrips": 10000000, "cache_containers_checked": 1000, "cfs_periods_checked": 15},
+                rule="CPU part exhaustive in every shard (all m in 0..256000, all shares 2..262144, all quotas at the default period, all m at 15 other CFS periods 2 ms..1 s); memory part: fixed list of 4511 capacities + N PRNG-drawn capacities per shard in [1MiB,64TiB], table build under recover and all Burstable adjustments round-tripped; containers of the three QoS classes through the cache"),
     "C18lib": dict(prop="C18", shards=16, n=dict(quick=800, thorough=8000),
                 floors={"maps_typed": 3000},
                 rule="N annotation maps per shard on real cache pods (names that are prefixes/suffixes of each other, look-alike keys), 4 insertion orders x 16 repetitions per query, doc-derived resolver; typed helpers of cache and topology-aware policy"),
@@ -752,9 +752,9 @@ def check_c14(prop, tier, seed):
 
 
 C18_SPEC = dict(
-    floors={"maps_typed": 3000, "memory-qos:target_form_ctr-over-pod": 2000, "memtierd:target_form_ctr-over-pod": 300, "memory-qos:maps_with_other_container_annotations": 5000,
+    floors={"maps_typed": 3000, "memtierd:predecessor_incarnations": 1000, "memory-qos:target_form_ctr-over-pod": 2000, "memtierd:target_form_ctr-over-pod": 300, "memory-qos:maps_with_other_container_annotations": 5000,
             "memory-qos:explicit_param_vs_class_conflict": 1000, "memtierd:explicit_param_vs_class_conflict": 100},
-    rule="resource-policy cache: N annotation maps per shard on real cache pods (container names that are prefixes/suffixes of each other, look-alike keys), 4 insertion orders x 16 repetitions per query against a doc-derived resolver, plus the typed helpers of cache and topology-aware policy || side plugins: N annotation maps per shard per plugin, each evaluated 16 times through the real CreateContainer (memtierd also StartContainer, sgx-epc also parseEpcLimit) with the Go map rebuilt in a shuffled insertion order, and once on the map reduced to the effective annotations; reference resolvers written from docs/memory/*.md; explicit cgroup parameters vs class-derived values; distinct = (name-relation class, forms present per key, look-alike count, class kind, outcome class)",
+    rule="resource-policy cache: N annotation maps per shard on real cache pods (container names that are prefixes/suffixes of each other, look-alike keys), 4 insertion orders x 16 repetitions per query against a doc-derived resolver, plus the typed helpers of cache and topology-aware policy || side plugins: N annotation maps per shard per plugin, each evaluated 16 times through the real CreateContainer (memtierd also StartContainer, sgx-epc also parseEpcLimit) with the Go map rebuilt in a shuffled insertion order, and once on the map reduced to the effective annotations; memtierd: in half of the cases earlier incarnations of the same namespace/pod/container names (created, started, stopped with other classes) precede the evaluations and must change no answer; reference resolvers written from docs/memory/*.md; explicit cgroup parameters vs class-derived values; distinct = (name-relation class, forms present per key, look-alike count, class kind, outcome class)",
 )
 
 
@@ -827,6 +827,7 @@ def main(argv):
             build("rm", race=True)
             build("lib")
             build_gotest("./pkg/agent/", "agent.test")
+            build_gotest("./pkg/agent/watch/", "watch.test")
             for pl in SIDE_PLUGINS:
                 build_gotest("./cmd/plugins/%s/" % pl, "side-%s.test" % pl)
         except Inconclusive as e:
